@@ -1548,6 +1548,11 @@ func main() {
 					q.Mode = "H" // informational response first: only a real server handles it like production
 					st.Count("M-early-hints(1xx)")
 				}
+				if !cs.Wire && r.Chance(1, 5) {
+					q.Mode = hx.Pick(r, []string{"S", "J", "V"}) // faults: short write, failed hijack, rejected status code
+					q.Method, q.Path = "GET", hx.Pick(r, []string{"/s", "/p/1"}) // a path whose handler runs
+					st.Count("M-fault:" + q.Mode)
+				}
 				if cs.Wire && (q.Status == 204 || q.Status == 301) && q.Mode != "Q" && q.Mode != "O" {
 					q.Status = 200 // the client follows redirects / net/http drops bodies on 204: not this kind's subject
 				}
